@@ -30,7 +30,7 @@ KNOWN = os.path.join(VERIF, 'known_findings.json')
 class Cell:
     def __init__(self, name, func, params=None, domain='a', tier='quick', timeout_s=120,
                  max_paths=400, q_timeout_ms=5000, ob_timeout_ms=20000, twin=True,
-                 events='outside', bounds='', conc_rtol=1e-6, expect_paths=None,
+                 events='violation', bounds='', conc_rtol=1e-6, expect_paths=None,
                  twin_timeout_s=None):
         self.name = name
         self.func = func                # 'module:function' relative to props package
@@ -255,7 +255,11 @@ def _replay(cell, res, obname, vals, p, tb=None):
     else:
         if tb:
             rec['tb'] = tb[-1500:]
-        res['unreproduced'].append(rec)
+        if obname.startswith('event:'):
+            # a possible division by zero / domain event whose inputs behave on the real library: not an error
+            res.setdefault('events_benign', []).append({'obligation': obname, 'path': p['decisions']})
+        else:
+            res['unreproduced'].append(rec)
 
 
 def _child(cell, twin, conn):
